@@ -1,16 +1,57 @@
 (* C02 - Generic decoding accepts exactly well-formed X.690 structure for the mode.
    Statements only; every proof is `exact <lemma>`.
 
-   STATUS: partial. What is proved here, for every caller closure and every
-   continuation of the input, are the per-value (one header-processing step)
-   acceptance and rejection rules from which the grammar is built, and that
-   nested values never extend past their parent (window isolation). The
-   whole-input statement "read_all succeeds iff the octets are Enc m ts"
-   (induction over the tree, both directions) is NOT proved in this
-   development; it is decided by the c02.prog correspondence against an
-   independent reference X.690 parser (see evidence). *)
+   The grammar (Proofs/GrammarP.v, `enc` / `encs`) is the X.690 structure as
+   an inductive relation between trees and octet strings: a value is a legal
+   minimal identifier (C12), length octets denoting the content length in the
+   mode (C13: any form up to four length octets in BER, the shortest in
+   CER/DER), then for a primitive its content, for a constructed value either
+   (not in CER) a definite length and the encodings of its members, or (not
+   in DER) 80, the members and an end-of-contents; tag universal 0 is never a
+   value; members are encoded in the same mode.
+
+   Proved, for every octet string, every mode, every nesting depth:
+     C02_accepts_exactly_the_grammar - the generic reader (read everything,
+       descend into constructed values, take the content of primitive ones)
+       succeeds with tree ts  IFF  the input is encs m ts: both directions,
+       including that the tree delivered is exactly the one encoded and that
+       the whole input is consumed;
+     C02_one_value_anywhere - reading ONE value at any position (top level,
+       inside a definite or an indefinite parent, under any limit) that
+       succeeds has consumed exactly one well-formed encoding d of the value
+       delivered, the limit went down by |d|, the parent is unchanged;
+     C02_wellformed_value_is_read - conversely every well-formed value is read
+       at any such position;
+   together with the per-step rejection rules and window isolation below.
+   By streams only: explicit mode switches inside a closure and the choice of
+   how many values to read (c02.prog, with an independent reference parser). *)
 Require Import BV.Model.Base BV.Model.SrcB BV.Model.Length BV.Model.Tag BV.Model.Content.
-Require Import BV.Proofs.SrcBP BV.Proofs.TagP BV.Proofs.ContentP BV.Proofs.WinP.
+Require Import BV.Proofs.SrcBP BV.Proofs.TagP BV.Proofs.ContentP BV.Proofs.WinP BV.Proofs.GrammarP.
+
+(* the whole-input statement, with the fuel the streams use (more than |d|) *)
+Theorem C02_accepts_exactly_the_grammar : forall m d ts fuel,
+  octets_ok d = true -> (length d < fuel)%nat ->
+  (fst (decode_src m (read_all fuel) (pure_src d None)) = Ok ts <-> encs m ts d).
+Proof. exact reader_accepts_exactly_the_grammar. Qed.
+
+(* one value, at any position *)
+Theorem C02_one_value_anywhere : forall f c s t c' s',
+  nf s -> octets_ok (rem s) = true ->
+  process_next_value c None (rd f) s = (Ok (Some t, c'), s') ->
+  nf s' /\ c' = c /\ exists d, enc (cmd c) t d /\ rem s = d ++ rem s' /\ consumed s s' (len d).
+Proof. exact (fun f => value_sound f (grammar_sound f)). Qed.
+
+Theorem C02_wellformed_value_is_read : forall m t d, enc m t d ->
+  forall fuel c rest l, (size t <= fuel)%nat -> cmd c = m -> octets_ok (d ++ rest) = true ->
+    lim_ge l (len d) -> may_start c l ->
+    process_next_value c None (rd fuel) (mkSrc (d ++ rest) l None)
+    = (Ok (Some t, c), mkSrc rest (lim_sub l (len d)) None).
+Proof. exact (fun m => proj1 (grammar_complete m)). Qed.
+
+Theorem C02_grammar_example :
+  encs Ber [TCons T_SEQUENCE [TPrim T_INTEGER [5]; TCons T_SET []]] [48; 7; 2; 1; 5; 49; 128; 0; 0].
+Proof. exact grammar_example. Qed.
+
 
 (* a well-formed present value (canonical identifier, shortest definite
    length, content of that length within the enclosing limit) is accepted in
@@ -85,6 +126,10 @@ Example C02_ex_der_rejects_indefinite :
   fst (decode_src Der (fun c => read_all 20 c) (pure_src [48;128; 0;0] None)) = CErr.
 Proof. vm_compute. reflexivity. Qed.
 
+Print Assumptions C02_accepts_exactly_the_grammar.
+Print Assumptions C02_one_value_anywhere.
+Print Assumptions C02_wellformed_value_is_read.
+Print Assumptions C02_grammar_example.
 Print Assumptions C02_value_step_partial.
 Print Assumptions C02_eoc_only_terminates_indefinite.
 Print Assumptions C02_form_rules.
